@@ -104,3 +104,45 @@ Definition check_case (c : nat * nat * list point * list (list point) * list poi
   let '(bsize, budget, h, script, obs_out, obs_reqs) := c in
   let r := sample_script bsize budget h script in
   points_eqb (output _ r) obs_out && nats_eqb (requests _ r) obs_reqs.
+
+(* ---- round 4: a generator whose FIRST batch is a view of rows [a, a + bsize) of the caller's history array
+   (`return existing_points[a:a + batch_size]`).  sample() writes the redraws into the very array sample_batch returned
+   (base.py:113 `samples[duplicates] = new_samples`), hence through the view into the history: after every substitution
+   the history holds the current batch at offset a, and the next pass compares the batch with THAT history. *)
+Definition window (a n : nat) (h : list point) : list point := firstn n (skipn a h).
+Definition write_through (a : nat) (h s : list point) : list point := firstn a h ++ s ++ skipn (a + length s) h.
+
+Section SampleView.
+  Variable St : Type.
+  Variable gen : St -> nat -> list point * St.
+
+  (* returns (samples, history as the caller finds it afterwards, state, flagged positions of each pass that redrew) *)
+  Fixpoint passes_view (budget a : nat) (h s : list point) (st : St) : list point * list point * St * list (list nat) :=
+    match budget with
+    | 0 => (s, h, st, [])
+    | S b =>
+        match dup_positions h s with
+        | [] => (s, h, st, [])
+        | d => let '(news, st') := gen st (length d) in
+               let s' := substitute s d news in
+               let '(out, h', st'', fl) := passes_view b a (write_through a h s') s' st' in
+               (out, h', st'', d :: fl)
+        end
+    end.
+
+  (* the generator is called (its state advances) but the batch IS the window of the history *)
+  Definition sample_view (bsize budget a : nat) (h : list point) (st : St) :=
+    let '(_, st1) := gen st bsize in passes_view budget a h (window a bsize h) st1.
+
+  Definition view_output (r : list point * list point * St * list (list nat)) : list point := fst (fst (fst r)).
+  Definition view_history (r : list point * list point * St * list (list nat)) : list point := snd (fst (fst r)).
+  Definition view_requests (r : list point * list point * St * list (list nat)) : list nat := map (@length nat) (snd r).
+End SampleView.
+
+Definition sample_view_script bsize budget a h script := sample_view _ script_gen bsize budget a h script.
+
+(* one correspondence case of the aliased situation: inputs, and the batch / history / requests observed afterwards *)
+Definition check_case_view (c : nat * nat * nat * list point * list (list point) * list point * list point * list nat) : bool :=
+  let '(bsize, budget, a, h, script, obs_out, obs_hist, obs_reqs) := c in
+  let r := sample_view_script bsize budget a h script in
+  points_eqb (view_output _ r) obs_out && points_eqb (view_history _ r) obs_hist && nats_eqb (view_requests _ r) obs_reqs.
